@@ -6,6 +6,26 @@ var _ = gosym.Options{}
 
 var props = []PropSpec{
 	{
+		ID: "C15", Level: "other",
+		Explanation: "bounded symbolic execution of analyzer, compiler, VM and tree interpreter on a module-graph family served by a harness host (visibility of function/global/type, which are imported, missing item/module, 2- and 3-cycles, overlapping private names as selectors) in map-order mode, so the orders in which host and compiler visit the modules are fork variables",
+		Harnesses: []HarnessSpec{
+			{Pkg: "homescript", Func: "VerifHarness_Modules", Quick: map[string]int{}, Require: []string{"analyzed", "ran"},
+				What: "3 modules (main, m1, m2) x pub/import switches for a function, a global and a type x {missing item, missing module, 2-cycle, 3-cycle}: diagnostic iff a linking rule is broken; accepted graphs print values identifying whose body ran against whose globals (both back ends), globals initialised once"},
+			{Pkg: "homescript", Func: "VerifHarness_Modules", Quick: map[string]int{"pinned": 1}, Require: []string{"analyzed", "ran"},
+				Opts: gosym.Options{MapOrder: true, MapOrderBudget: 1},
+				What: "one representative valid 3-module graph under every single deviating map iteration order (orders in which analyzer, compiler and VM visit modules, scopes and function tables)"},
+		},
+	},
+	{
+		ID: "C14", Level: "other",
+		Explanation: "bounded symbolic execution of analyse + compile + run (both back ends) in map-order nondeterminism mode: every `range` over a Go map inside the repository's packages is a fork variable over its orders (bounded number of deviating ranges per path); the observable result (sorted diagnostics, outputs, outcomes) of every explored path must equal the first path's, and a second run inside one path must equal the first",
+		Harnesses: []HarnessSpec{
+			{Pkg: "homescript", Func: "VerifHarness_Determinism", Quick: map[string]int{}, Require: []string{"ran"},
+				Opts: gosym.Options{MapOrder: true, MapOrderBudget: 1}, QuickPaths: 0,
+				What: "6 programs (3-field object printed/compared, any-object keys/json, several warnings, 3 modules with same-named items, many locals, list of objects): identical observable result on every order of every single map range (1 deviating range per path; thorough 2)"},
+		},
+	},
+	{
 		ID: "C16", Level: "other",
 		Explanation: "bounded symbolic execution of call histories against one runtime.VM (NewVM, SpawnSync, spawnCore, Wait, HandleTermination, Core.Run incl. goroutines, channels and the RWMutex under the engine's scheduler); targets are selectors, argument values unconstrained solver variables; a reference state machine tracks the global as a term; a call that blocks forever is the engine's deadlock outcome",
 		Harnesses: []HarnessSpec{
